@@ -40,7 +40,8 @@ ANCHORS = [
     ("buidl/tx.py", "Tx.initialize_p2tr_multisig"), ("buidl/tx.py", "Tx.finalize_p2tr_multisig"),
 ]
 RULE = ("cases come from one PRNG seeded by VERIF_SEED plus fixed catalogues: participant sets of size 2..5 drawn from a "
-        "pool of private keys with both Y parities (plus the catalogue secrets 1, 2, 3, N-1, N-2), listed in random order; "
+        "pool of private keys with both Y parities (plus the catalogue secrets 1, 2, 3, N-1, N-2), listed in random order, "
+        "one session in five with two participants sharing an x-only key (the same key twice, or d and N-d; counted); "
         "nonces from the seeded PRNG through the patched `randbelow` (boundary nonces 1 and N-1 included); random 32-byte "
         "messages; with and without merkle root; sessions are generated until every branch of sign/get_signature "
         "(R parity x external-key parity, aggregate parity x participant parity, tweaked/plain) has been taken — the "
@@ -51,13 +52,14 @@ CLAUSES = {
     "aggregate key independent of participant order": "proved (sort_sorted_perm, sort_perm, aggregate_key_perm, "
         "multisig_script_perm, subset_leaf_order_independent)",
     "sum of partial signatures is a valid BIP340 signature (plain and tweaked, all parity combinations)":
-        "partial(F13a) (get_signature_valid_partial, get_signature_bip340_partial, aggregate_key_formula_partial, verify_schnorr_unique): proved for "
-        "all participant lists with pairwise different x-only keys, all nonces, messages, merkle roots and timelocks — "
-        "the algebra s*G = R_even + e*Q_even in the ZMod N-module <G>, with GroupLaw discharged by "
-        "Buidl.Proofs.TaprootGroup from the secp256k1 development of C03; fails for repeated x-only keys (F13a_witness)",
+        "proved (get_signature_valid, get_signature_bip340, aggregate_key_formula, coefficients_by_key, "
+        "verify_schnorr_unique): for all participant lists (valid secrets; equal x-only keys — the same key twice, d and "
+        "N-d — allowed), all nonces, messages, merkle roots and timelocks — the algebra s*G = R_even + e*Q_even in the "
+        "ZMod N-module <G>, with GroupLaw discharged by Buidl.Proofs.TaprootGroup from the secp256k1 development of C03. "
+        "The model is the repaired constructor (F13a fixed: work/C13/fix-F13a.diff); F13a_witness documents the old table",
     "omitted / altered partial signature never yields a valid aggregate":
-        "partial(F13a) (get_signature_iff_partial: get_signature succeeds exactly for s_sum congruent to the sum of the "
-        "partial signatures modulo N; alter_partial_rejected_partial, omit_partial_rejected_partial)",
+        "proved (get_signature_iff: get_signature succeeds exactly for s_sum congruent to the sum of the partial "
+        "signatures modulo N; alter_partial_rejected, omit_partial_rejected)",
     "k-of-n trees: each k-subset owns exactly one leaf":
         "proved (combinations_mem, combinations_no_repeat, combinations_count, combinations_bijection, combine_keeps_leaves, "
         "multi_leaf_tree_leaves, musig_tree_leaves, multisig_leaf_injective, subset_leaf_order_independent): the leaves "
@@ -67,7 +69,7 @@ CLAUSES = {
         "(tree_bijection)",
     "a spend of each leaf by its subset verifies":
         "correspondence-only (needs the tapscript interpreter of C06/C07): sampled end-to-end through Tx.verify_input",
-    "BIP340 verification": "proved (get_signature_bip340_partial): with the tagged hashes instantiated by SHA-256 the 64 "
+    "BIP340 verification": "proved (get_signature_bip340): with the tagged hashes instantiated by SHA-256 the 64 "
         "bytes returned by get_signature satisfy Spec.BIP340.verify (the BIP's algorithm, Buidl.Spec.BIP340) for the "
         "x-only external key — through verify_schnorr_unique, the bridge MuSig.verifySchnorr = Schnorr.verifySchnorr "
         "(Buidl.Proofs.MuSigSpec) and C02's verifyRaw_iff_spec; the harness additionally checks every aggregate signature "
@@ -83,7 +85,6 @@ ASSUMPTIONS = ["negligible events are explicit: the session theorems assume the 
                "omit_partial_rejected assumes the omitted partial signature is not 0 mod N",
                "participants are given by their secrets (every key is d*G): Mathlib has no Hasse bound, so arbitrary curve "
                "points are not known to lie in <G>",
-               "the x-only participant keys are pairwise different (F13a: the code keys its coefficient table by x-only key)",
                "itertools.combinations and sorted behave as documented (their models are validated by this run)"]
 
 
@@ -506,6 +507,7 @@ def eval_pred(kc):
 
 
 # --------------------------------------------------------------------------------- generation
+PFIELD = 2 ** 256 - 2 ** 32 - 977
 BRANCHES = [(t, rp, ep) for t in (False, True) for rp in (0, 1) for ep in ((0, 1) if t else (0,))]
 
 
@@ -589,20 +591,25 @@ def run(ctx):
     # the same key twice, and a key together with its negation (same x-only key): out of the property's domain
     neg = next((a, b) for a in keys for b in keys if a[1] == b[1] and a[2] != b[2]) if any(
         a[1] == b[1] and a[2] != b[2] for a in keys for b in keys) else None
-    add("musig_new:dup", f"musig_new 2 {ptok(keys[5])} {ptok(keys[5])} - -", determined=False)
-    add("musig_new:dup", f"musig_new 3 {ptok(keys[5])} {ptok(keys[6])} {ptok(keys[5])} - -", determined=False)
+    add("musig_new:dup", f"musig_new 2 {ptok(keys[5])} {ptok(keys[5])} - -")
+    add("musig_new:dup", f"musig_new 3 {ptok(keys[5])} {ptok(keys[6])} {ptok(keys[5])} - -")
+    add("musig_new:dup", f"musig_new 3 {ptok(keys[5])} {ptok(keys[5])} {ptok(keys[5])} - -")
+    add("musig_new:single", f"musig_new 1 {ptok(keys[5])} - -")
     if neg:
-        add("musig_new:neg", f"musig_new 2 {ptok(neg[0])} {ptok(neg[1])} - -", determined=False)
+        add("musig_new:neg", f"musig_new 2 {ptok(neg[0])} {ptok(neg[1])} - -")
 
-    # ---- finding F13a: participants with equal x-only keys (replayed on every run)
+    # ---- finding F13a (fixed): participants with equal x-only keys; the witnesses are replayed on every run and a
+    # get_signature that raises again is the regression
     for wit in ({"parts": [(1, 11, 12), (N - 1, 13, 14)], "sig_hash": xb(bytes(range(32))), "root": "x", "tampers": []},
-                {"parts": [(5, 21, 22), (5, 23, 24)], "sig_hash": xb(bytes(range(32))), "root": xb(bytes(32)), "tampers": []}):
+                {"parts": [(5, 21, 22), (5, 23, 24)], "sig_hash": xb(bytes(range(32))), "root": xb(bytes(32)), "tampers": []},
+                {"parts": [(7, 31, 32), (9, 33, 34), (N - 7, 35, 36), (7, 37, 38)], "sig_hash": xb(bytes(32)), "root": "x",
+                 "tampers": [("omit", 2), ("alter", 0, 1)]}):
         ok, got, want = eval_pred(("session", wit))
-        reproduces = (not ok) and isinstance(got, str) and got.startswith("get_signature raised")
-        rec.finding("F13a", reproduces, wit)
-        if reproduces:   # the model describes today's code: compare it on the witness as long as the defect is there
-            ptoks = " ".join(f"{d} {k1} {k2}" for d, k1, k2 in wit["parts"])
-            add("session:F13a", f"session 2 {ptoks} {wit['sig_hash']} {wit['root']} - - none")
+        rec.finding("F13a", not ok, wit)
+        if ok:
+            rec.ok("session:F13a", repr(wit)[:300])
+        ptoks = " ".join(f"{d} {k1} {k2}" for d, k1, k2 in wit["parts"])
+        add("session:F13a", f"session {len(wit['parts'])} {ptoks} {wit['sig_hash']} {wit['root']} - - none")
 
     # ---- permutation invariance
     for i in range(ctx.n(10, 40)):
@@ -620,6 +627,14 @@ def run(ctx):
     def new_session(i, tweaked):
         n = 2 + i % 4
         ks = pick_set(n, want_mixed=(i % 3 != 2))
+        if i % 5 == 3:      # equal x-only keys: the same key twice, or a key and its negation (secret N - d)
+            j, l = rng.sample(range(n), 2)
+            if rng.random() < 0.5:
+                ks[l] = ks[j]
+                rec.count("session:same-key-twice")
+            else:
+                ks[l] = (N - ks[j][0], ks[j][1], PFIELD - ks[j][2])
+                rec.count("session:key-and-negation")
         rng.shuffle(ks)
         parts = []
         for j, k in enumerate(ks):
